@@ -44,7 +44,9 @@ class Spec:
         self.harness_timeout = harness_timeout
         self.harness_env = harness_env or {}
         self.post = post                    # optional hook(ctx) -> list of extra failures
-        self.thorough_extra = list(thorough_extra)   # [(harness, overlay, args, race)] run in the thorough tier only
+        # [(harness, overlay, args_thorough, race[, args_quick])]: further harnesses; run in the thorough tier,
+        # and in the quick tier too when args_quick is given
+        self.thorough_extra = list(thorough_extra)
 
 
 def parse_assumptions(out):
@@ -84,7 +86,15 @@ def run(spec, tier, seed, replay=None):
 
     if replay:
         replay = os.path.abspath(replay)
-        ok, binp, blog = vlib.build_harness(spec.harness, spec.overlay, race=spec.race)
+        hname, hov, hrace = spec.harness, spec.overlay, spec.race
+        try:
+            want = json.load(open(replay)).get("harness")
+        except Exception:
+            want = None
+        for ex in spec.thorough_extra:
+            if want and ex[0] == want and want != spec.harness:
+                hname, hov, hrace = ex[0], ex[1], ex[3]
+        ok, binp, blog = vlib.build_harness(hname, hov, race=hrace)
         if not ok:
             print(blog[-3000:])
             return 2
@@ -175,14 +185,21 @@ def run(spec, tier, seed, replay=None):
                     problems.append({"kind": "correspondence",
                                      "what": "model and implementation disagree on %d case(s) of %s" % (len(idx), f),
                                      "first_cases": [m for m in mismatches if m["file"] == f][:3]})
+        s["harness"] = hname or spec.harness
+        for f in (s.get("failures") or []):
+            f.setdefault("harness", hname or spec.harness)
         harness_runs.append(s)
         return s
 
     if spec.harness:
         summ = harness_round(args, seed, "main")
-    if tier == "thorough":
-        for k, (hn, hov, hargs, hrace) in enumerate(spec.thorough_extra):
+    for k, ex in enumerate(spec.thorough_extra):
+        hn, hov, hargs, hrace = ex[:4]
+        hq = ex[4] if len(ex) > 4 else None
+        if tier == "thorough":
             harness_round(list(hargs), seed, "extra%d" % k, hname=hn, hoverlay=hov, hrace=hrace)
+        elif hq:
+            harness_round(list(hq), seed, "extra%d" % k, hname=hn, hoverlay=hov, hrace=hrace)
 
     failures = []
     for s in harness_runs:
@@ -224,7 +241,7 @@ def run(spec, tier, seed, replay=None):
         f = new_fail[0]
         path = vlib.write_replay(pid, "violation_%s_%s.json" % (tier, seed), {
             "property": pid, "kind": "failing-input", "what": f.get("what"), "key": f.get("key"),
-            "replay": f.get("replay"), "broken_obligations": problems[:5],
+            "replay": f.get("replay"), "harness": f.get("harness"), "broken_obligations": problems[:5],
             "how_to_replay": "bin/check %s --replay <this file>" % pid})
         lines.append("VIOLATION property=%s replay=%s" % (pid, path))
     elif problems:
@@ -250,6 +267,10 @@ def run(spec, tier, seed, replay=None):
         "rule": s.get("rule", ""),
         "samples": (s.get("samples") or [])[:5] or [{"theorem_file": spec.prop_file}],
         "input_distribution": (s.get("distribution") or {}),
+        "further_harnesses": [{"harness": x.get("harness"),
+                               "property_filter": x.get("property"), "evaluations": x.get("evaluations", 0),
+                               "distinct_nontrivial": x.get("distinct_nontrivial", 0), "rule": x.get("rule", ""),
+                               "input_distribution": x.get("distribution") or {}} for x in harness_runs[1:]],
         "cases_evaluated_in_coq": evaluated_in_coq,
         "model_impl_mismatches": len(mismatches),
         "oracle_failures": len(oracle_fail),
